@@ -179,6 +179,12 @@ func (r *Router) onSend(from *Inc, to int, pk *test.Packet) {
 		c.Mon.onWire(from, to, pk, pm, seq, false)
 		r.byz.observe(from, pm)
 		r.byz.laObserve(from, pm)
+		r.byz.spObserve(from, pm)
+		if r.byz.spFilter(from, to, pk, pm) {
+			r.trace("FILTER", from.Idx, to, pm)
+			r.count(&r.Dropped)
+			return
+		}
 		if r.byz.filter(from, to, pk, pm) {
 			r.trace("FILTER", from.Idx, to, pm)
 			r.count(&r.Dropped)
@@ -290,6 +296,11 @@ func (r *Router) sendForged(from *Inc, to int, pi module.ProtocolInfo, data []by
 	r.c.Mon.onWire(from, to, pk, pm, seq, true)
 	r.trace("FORGED", from.Idx, to, pm)
 	r.deliver(to, pk, delayMs)
+}
+
+// sendForgedPI is sendForged with a raw sub-protocol number.
+func (r *Router) sendForgedPI(from *Inc, to int, pi uint16, data []byte) {
+	r.sendForged(from, to, module.ProtocolInfo(pi), data, 0)
 }
 
 // parsed is a decoded consensus packet.
